@@ -599,9 +599,9 @@ THEOREMS = {
     'C12_len_spec': 'text length = reference text length (braces never counted, a special character once, other characters once) or the nesting error',
     'C12_len_plain': 'text length of a brace-free string is its length',
     'C12_len_braces': 'braces themselves are never counted (no backslash: length = number of non-brace characters)',
-    'C12_len_special': 'a closed special character {\\...} counts exactly once whatever its (balanced) body',
+    'C12_len_special': 'a closed special character {\\...} with a balanced body AT THE HEAD of the string counts exactly once: text length = 1 + text length of the arbitrary rest (nesting within the limit); special characters at other positions are covered by C12_len_spec against the reference count',
     'C12_prefix_len': 'the text prefix of n >= 0 has text length min(n, text length)',
-    'C12_prefix_nonpos': 'the text prefix is empty for n <= 0',
+    'C12_prefix_nonpos': '[model wiring] the text prefix is empty for n <= 0: this is the first test of the model of the repaired code (fix fd32373), restated; that bibtex_prefix / text.prefix$ behave so is carried by the correspondence check (every count from -1 on every exhaustive string)',
     'C12_prefix_is_prefix': 'the text prefix is a prefix of the string followed by exactly the closing braces it left open (a prefix of s + "}" after an unclosed special character)',
     'C12_depthSat_depthAfter': 'the saturating depth used in C12_prefix_is_prefix is the brace depth wherever that never goes negative',
     'C12_purify_range': 'purify yields only ASCII letters, digits and spaces',
@@ -625,17 +625,18 @@ THEOREMS = {
     'C12_case_len_unicode': 'case change preserves the length when every special character is closed (about the code on caseDomain: no letter whose case mapping changes the length, no capital sigma)',
     'C12_case_idem_unicode': 'case change is idempotent when every special character is closed (Unicode mapping)',
     'C12_case_braces_unicode': 'inside braces case change changes nothing except the non-command words of a special character (Unicode mapping)',
-    'C12_case_domain': 'the decidable domain of the case-changing model excludes ß İ ŉ ǰ ﬁ (102 + 1 letters whose case mapping changes the length) and the capital sigma (known finding C12-case-length-changing-letter)',
+    'C12_case_domain': '[model wiring] literal evaluations of the domain predicate: a plain string is inside, Straße and the one-letter strings İ ŉ ǰ ﬁ Σ are outside; table sizes 102 (longer upper-case form) and 1 (U+0130); that ALL these letters are excluded is the definition of caseDomainC, not this theorem (finding C12-case-length-changing-letter)',
     'C12_change_case_mode': 'every mode letter: change.case$ looks at the first character of the mode string only, l/L u/U t/T (no other character of Unicode lower-cases to one of them); empty and other modes are BibTeX errors',
-    'C12_split_strip': 'what the call sites get = the unstripped pieces with the white space at their two ends removed (nothing else), empty ones dropped for the default separator only; split_name_list strips and keeps empties',
+    'C12_split_strip': '[model wiring] conjuncts 1-2 unfold the model (call sites get strip of each unstripped piece, empty ones dropped for the default separator only; split_name_list keeps empties): the bridge to the theorems on unstripped pieces; proved content is conjunct 3: strip removes white space at the two ends and nothing else (p = l + strip(p) + r, l and r white space)',
     'C12_split_stripped_balanced': 'on balanced input the stripped parts (call sites) are balanced: never split inside braces',
     'C12_split_top': 'EVERY string, balanced or not (after the repair C12-1): the parts in order with one separator match between consecutive parts give back the input, and every dropped separator lies at brace level 0 (an unmatched "}" is an ordinary character, an unclosed group extends to the end and is never split)',
-    'C12_split_maximal': 'maximality, every string: no part contains a brace-level-0 match of the separator (a white-space character, or a tie not after a backslash, for the default one): the string is cut at EVERY top-level separator',
-    'C12_split_characterised': 'the two halves together (closes the SplitsTo.one loophole): the pieces are a decomposition of the input into parts WITHOUT a top-level separator match, separated by top-level separator matches',
+    'C12_split_maximal': 'maximality, every string: no part contains a brace-level-0 match of the separator (for the default one: a white-space character, or a tie not after a backslash), i.e. no top-level separator is left inside a part; this does not by itself determine WHERE overlapping or adjacent matches are cut (that is C12_split_leftmost)',
+    'C12_split_characterised': 'the two halves together (closes the SplitsTo.one loophole), every non-empty string: the pieces are A decomposition of the input into parts WITHOUT a top-level separator match, separated by top-level separator matches (such a decomposition need not be unique: "a and and b", "a\\ b"; the unique leftmost-match one is C12_split_leftmost)',
+    'C12_split_leftmost': 'LEFTMOST MATCH, every non-empty string: the pieces are THE first-match decomposition (Spec.SplitsFirst, no model matcher): one COMPLETE top-level separator match (default: the whole greedy run) between consecutive parts, each the FIRST after the previous cut (none begins at a level-0 position before it, not even one reaching beyond the part); parts with these properties EQUAL the result',
     'C12_split_maximal_stripped': 'maximality for the stripped parts the call sites get',
     'C12_first_letter_spec': '[anchored mechanism] bibtex_first_letter = the first token in scan order that is a special character with a command (answered in braces) or a letter; a brace-level-0 backslash is skipped',
     'C12_first_letter_plain': '[anchored mechanism] without braces and backslashes the first letter is the first letter',
-    'C12_abbreviate_spec': '[anchored mechanism] bibtex_abbreviate joins the first letters of the top-level hyphen pieces, pieces without a letter skipped, order kept',
+    'C12_abbreviate_spec': '[anchored mechanism][model wiring] unfolds the model, success direction only: IF bibtex_abbreviate returns r then r = the first letters (C12_first_letter_spec) of the stripped top-level hyphen pieces (C12_split_leftmost), empty ones skipped, order kept, joined with the delimiter (default ".-"); conjunct 3 is a tautology',
     'C12_width_plain': '[anchored mechanism] width of a brace-free string = sum of the character widths',
     'C12_width_special': '[anchored mechanism] a closed special character: its two braces + the characters after the first one of its command (inner braces not counted) - 1000',
 }
@@ -652,13 +653,16 @@ LEVEL_TEXT = ('Machine-checked proofs (Lean 4) about the executable model of pyb
               'canonical form lower(upper(c)), proved canonical from kernel-evaluated table checks); change.case$ accepts exactly the '
               'mode letters l/L u/U t/T as first character; top-level splitting of EVERY string (balanced or not) gives back the input '
               'with one separator match between consecutive parts, every dropped separator at brace level 0, and NO top-level separator '
-              'match left inside a part (maximality), for the unstripped pieces and for the stripped parts the call sites get; '
+              'match left inside a part (maximality), for the unstripped pieces and for the stripped parts the call sites get; the '
+              'unstripped pieces are moreover THE leftmost-match decomposition (each separator is the first complete top-level match '
+              'after the previous cut), which is proved unique; '
               'bibtex_first_letter / bibtex_abbreviate / bibtex_width are characterised. The model is tied to the code by the differential '
               'check (exhaustive over all strings of length <= 4 over a 10-character alphabet (+ a comma alphabet) x all counts/windows x a mode family, all '
               'strings <= 7 over the "and" alphabet containing "and", sampled beyond; utils functions and the real built-ins).')
 LEVEL_NOTE = ('Trusted: Lean kernel; axioms propext/Classical.choice/Quot.sound only; the hand-written models (Model/TeXString.lean, '
               'Model/TeXStringU.lean) and reference notions (Spec/TeXString.lean: substring, depthAfter, balanced, maxDepth, endsInSpecial, '
-              'depthSat, textLength, SplitsTo/SplitsTop, HasTopSep and the separator predicates, firstLetterOf) correspond to the code only '
+              'depthSat, textLength, SplitsTo/SplitsTop, HasTopSep and the separator predicates, firstLetterOf; Spec/TeXSplitFirst.lean: '
+              'SplitsFirst with "a match begins here" / "complete match" per separator) correspond to the code only '
               'as far as the differential check explores; re.split on the four separator shapes is modelled by hand matchers; the '
               'character tables are those of the interpreter the check runs on. The three case-change laws are false of the code on '
               'strings with an unclosed special character (known finding C12-unclosed-special-char; C12_case_len_neg, '
@@ -667,4 +671,8 @@ LEVEL_NOTE = ('Trusted: Lean kernel; axioms propext/Classical.choice/Quot.sound 
               'capital sigma are outside the case-changing model (caseDomain), the clauses are evaluated on the implementation alone '
               'there. The splitting theorems for unbalanced input describe the code AFTER the repair proposed_fixes/C12-1 '
               '(_find_closing_brace: an unclosed group extends to the end of the string). The first-letter / abbreviation / width theorems '
-              'and oracle clauses are about the anchored mechanism; the statement of the property has no clause for them.')
+              'and oracle clauses are about the anchored mechanism; the statement of the property has no clause for them.  Theorems marked '
+              '[model wiring] (C12_prefix_nonpos, C12_split_strip conjuncts 1-2, C12_case_domain, C12_abbreviate_spec) restate a '
+              'definition of the model or evaluate it on literals; what they say about the code is carried by the correspondence check.  '
+              'C12_split_top + C12_split_maximal (= C12_split_characterised) do not determine the parts; C12_split_leftmost does '
+              '(deterministic reference Spec.SplitsFirst + uniqueness), for the four separator shapes the package uses.')
